@@ -1,0 +1,41 @@
+//! Verification hooks. Compiled only with `--cfg cactusref_verif`; the crate
+//! is unchanged without that flag.
+//!
+//! The library reports a small set of events (box accessed, link table
+//! accessed, value or link table moved out of a box, reachability trace
+//! progress) to a callback installed by the verification harness.
+#![allow(missing_docs)]
+
+use core::sync::atomic::{AtomicUsize, Ordering};
+
+/// The counters of a box are read or written through a handle or a link.
+pub const ACCESS: u8 = 0;
+/// The link table of a box is accessed.
+pub const LINKS: u8 = 1;
+/// The value was moved out of a box.
+pub const VALUE_MOVED: u8 = 2;
+/// The link table was moved out of a box.
+pub const LINKS_MOVED: u8 = 3;
+/// `cycle_refs` starts at this box.
+pub const TRACE_START: u8 = 4;
+/// `cycle_refs` popped a link to this box from its worklist.
+pub const TRACE_POP: u8 = 5;
+/// `cycle_refs` visits this box.
+pub const TRACE_VISIT: u8 = 6;
+
+static HOOK: AtomicUsize = AtomicUsize::new(0);
+
+/// Install the callback; it receives the event kind and the `RcBox` address.
+pub fn set_hook(hook: fn(u8, usize)) {
+    HOOK.store(hook as usize, Ordering::Relaxed);
+}
+
+#[inline]
+pub(crate) fn emit(event: u8, rcbox: usize) {
+    let hook = HOOK.load(Ordering::Relaxed);
+    if hook != 0 {
+        // SAFETY: the only writer stores a `fn(u8, usize)`.
+        let hook: fn(u8, usize) = unsafe { core::mem::transmute(hook) };
+        hook(event, rcbox);
+    }
+}
